@@ -151,6 +151,14 @@ def stepC01 (_ : Unit) (ws : List String) : Unit × String :=
           match c.ty ty, i.toNat?, parseHex img with
           | some t, some i, some b => showOpt (readFieldAligned t i b)
           | _, _, _ => "bad-op"
+        | "multi", [kind, pre, v] =>
+          match parseHex pre, parseInt v with
+          | some pre, some v =>
+            if (kind ≠ "money" && kind ≠ "anon") || pre.length ≠ 4 || v < -2147483648 || v > 2147483647 then "bad-op"
+            else
+              let m := setMulti pre v
+              s!"{toHex m} get={getMulti m}"
+          | _, _ => "bad-op"
         | "xwrite", [ty, i, val, total] =>
           match c.ty ty, i.toNat?, parseHex val, total.toNat? with
           | some t, some i, some v, some n => showOpt (writeFieldPacked t i v n)
